@@ -257,7 +257,7 @@ impl Check for C19Check {
         }
     }
     fn rule(&self) -> &'static str {
-        "case = project fixture (plain files/dirs, hidden entries, symlinked dir/file out of the project, symlink to hidden, dangling/absolute/looping/benign symlinks; entries randomly dropped) nested in a sentinel tree x sessions (editors, viewers, idle editor that expires, bogus token forms, write-disabled flag) x 25-60 seeded operations over the whole WebIdeState API with hostile path strings (confine profile) or k editors doing open/write(expected)/retry with external modifications, delete+create, rename, project re-selection (chain profile; 1 in 5 of those starts with a scripted skeleton: A observes, B writes, the server's memory of the file is reset by delete+create / directory delete / rename away and back / project re-selection / file vanishing behind the IDE, A writes with the version it saw); distinct non-trivial = distinct (operation, path route, path class, session authority, outcome) tuple reached, plus distinct per-file sequences of (session, event) containing at least one refused or acknowledged write"
+        "case = project fixture (plain files/dirs, hidden entries, symlinked dir/file out of the project, symlink to hidden, dangling/absolute/looping/benign symlinks; entries randomly dropped) nested in a sentinel tree x sessions (editors, viewers, idle editor that expires, bogus token forms, write-disabled flag) x 25-60 seeded operations over the whole WebIdeState API with hostile path strings (confine profile) or k editors doing open/write(expected)/retry with external modifications, delete+create, rename, project re-selection (chain profile; 1 in 5 of those starts with a scripted skeleton: A observes, B writes, the server's memory of the file is reset by delete+create / directory delete / rename away and back / project re-selection / file vanishing behind the IDE, A writes with the version it saw); round 3: files whose names differ in letter case only, renames aimed at existing files (an acknowledged rename must not replace a file that was there before); distinct non-trivial = distinct (operation, path route, path class, session authority, outcome) tuple reached, plus distinct per-file sequences of (session, event) containing at least one refused or acknowledged write"
     }
     fn assumptions(&self) -> Vec<&'static str> {
         vec![
